@@ -24,8 +24,8 @@ func c04Configs() []uint32 {
 	for i := 0; i < c04NOpts; i++ {
 		cs = append(cs, 1<<i)
 	}
-	cs = append(cs, 1<<c04NOpts-1)                  // all off
-	cs = append(cs, (1<<c04NOpts-1)&^(1<<11))        // all compile-time switches off
+	cs = append(cs, 1<<c04NOpts-1)                         // all off
+	cs = append(cs, (1<<c04NOpts-1)&^(1<<11))              // all compile-time switches off
 	cs = append(cs, 1<<5|1<<6, 1<<9|1<<10, 1<<0|1<<1|1<<7) // inlining pair, tailrec+peephole, const folding family
 	return cs
 }
@@ -237,7 +237,7 @@ var c04NearConstPaths = []string{".a = 1", ".a.b = 1", ".[0] = 1", ".[1:] = [1]"
 func init() {
 	run.Register(&run.Prop{
 		ID: "C04", Level: "exploration", MinNontrivial: 300,
-		Rule: "a case is (program, 3 inputs); it is compiled by the real compiler in its default configuration and with each single optimisation switched off (constant object/array/unary folding, constant index key, constant assignment path, identity / one-instruction argument inlining, constant if branches, expbegin removal, tail-call elimination, peephole pass; the in-place update switch is flipped at run time), with all switches off and with three switch groups off; every configuration's event list on every input must equal the default's (values exactly, user errors by value, internal errors by class), every emitted code must pass a static well-formedness scan, and a program must compile in all configurations or in none. Programs: PRNG-generated core-grammar programs weighted toward literal containers and updates, templates × one-instruction arguments of every kind, self calls in and out of tail position, constant and near-constant assignment paths, the library-level corpus and token mutations of it. Non-trivial = distinct programs for which at least one switch changed the emitted instruction sequence.",
+		Rule:        "a case is (program, 3 inputs); it is compiled by the real compiler in its default configuration and with each single optimisation switched off (constant object/array/unary folding, constant index key, constant assignment path, identity / one-instruction argument inlining, constant if branches, expbegin removal, tail-call elimination, peephole pass; the in-place update switch is flipped at run time), with all switches off and with three switch groups off; every configuration's event list on every input must equal the default's (values exactly, user errors by value, internal errors by class), every emitted code must pass a static well-formedness scan, and a program must compile in all configurations or in none. Programs: PRNG-generated core-grammar programs weighted toward literal containers and updates, templates × one-instruction arguments of every kind, self calls in and out of tail position, constant and near-constant assignment paths, the library-level corpus and token mutations of it. Non-trivial = distinct programs for which at least one switch changed the emitted instruction sequence.",
 		Assumptions: []string{"the switches (build tag verif) select the compiler's own generic lowering: each inserted guard runs the pre-existing unoptimised code path", "two caught internal error messages are compared by class, not wording"},
 		Body: func(c *run.Ctx) {
 			small := gen.USmall()
